@@ -527,7 +527,7 @@ func stacksOf(sub string) string {
 // settle waits (bounded) for the poller count to reach want; a stable different count is a definite state.
 func settle(pkg string, want int) int {
 	got := pollers(pkg)
-	for i := 0; i < 400 && got != want; i++ {
+	for i := 0; i < 4000 && got != want; i++ {
 		time.Sleep(500 * time.Microsecond)
 		got = pollers(pkg)
 	}
